@@ -229,6 +229,9 @@ func c12RunN(src string, inputs []*big.Int, want int) (out c12Outcome) {
 		return o
 	}
 	params := utils.NewParams()
+	if c12ParamHook != nil {
+		c12ParamHook(params)
+	}
 	defer params.Close()
 	prog, _, err := compiler.New(params).CompileSSA("{data}", strings.NewReader(src), nil)
 	if err != nil {
@@ -985,6 +988,7 @@ func runC12(c *Ctx) error {
 	runC12Calls(c)
 	runC12Bind(c)
 	runC12Eval(c)
+	runC12Doors(c)
 	c.Note("programs compiled: %d; constant variants with the operator folded away: %d, not folded: %d", nPrograms, nFolded, nNotFolded)
 	return nil
 }
